@@ -62,6 +62,7 @@ def step (s : St) (ts : List String) : St × List String :=
   | ["swap", i] => ({ s with cells := swapAt s.cells (natD i) }, ["swap ok"])
   | ["rmmax", i] => ({ s with cells := s.cells.eraseIdx (natD i) }, ["rmmax"])
   | ["cycles"] => (s, [s!"cycles ok {(posBars s).length}"])
+  | ["dup", _] => (s, ["dup"])   -- C15: copy / move / swap of the whole matrix is the identity of the model
   | _ => (s, ["bad-op"])
 
 def main (_args : List String) : IO Unit := do
